@@ -46,6 +46,7 @@ let crash_name = function
   | CAttributeError -> "AttributeError" | CAssertion -> "AssertionError" | CIndexError -> "IndexError"
   | CKeyError -> "KeyError" | CUnicodeError -> "UnicodeError" | CRecursion -> "RecursionError"
   | COutOfFuel -> "OutOfFuel" | CNotImplemented -> "NotImplementedError" | CStructError -> "error"
+  | COSError -> "OSError" | CLookupError -> "LookupError"
 
 (* ---------- intexpr ---------- *)
 let binop_s = function Add -> "+" | Sub -> "-" | Mult -> "*" | Div -> "/" | Mod -> "%"
@@ -295,6 +296,53 @@ let mo_run_s asc enc0 f =
     | Crash c -> "crash " ^ crash_name c in
   String.concat " # " ((st :: ("cs=" ^ opt_str enc) :: List.map mo_entry_s es))
 
+(* ---------- encodings (C20) ---------- *)
+let pos_s (k : nat) = string_of_int (int_of_nat k)
+let cm_res_s = function
+  | Ok l -> "ok " ^ out_str l
+  | Err (a, b) -> "err " ^ pos_s a ^ " " ^ pos_s b
+  | Crash c -> "crash " ^ crash_name c
+let asc_of = function
+  | "same" -> AscSame | "diff" -> AscDiff | "decerr" -> AscDecodeError | "lookup" -> AscLookupError
+  | "other" -> AscOtherError | "notstr" -> AscNotStr | s -> failwith ("bad ascii outcome " ^ s)
+let opt_str_arg s = if s = "-" then None else Some (arg_str s)
+(* oracle for one name: str.lower / str.upper / codecs.lookup / ASCII decoding of that name as computed by the
+   harness with the library calls themselves; every other string (table keys: ASCII) gets ASCII case mapping *)
+let one_name_oracle name lower upper lookup asc = {
+  co_lower = (fun s -> if list_eqb0 s name then lower else ascii_lower s);
+  co_upper = (fun s -> if list_eqb0 s name then upper else ascii_upper0 s);
+  co_lookup = (fun s -> if list_eqb0 s name then lookup else None);
+  co_ascii = (fun s -> if list_eqb0 s name then asc else AscLookupError) }
+let cls_s = function
+  | Ok ClsUnknown -> "unknown" | Ok ClsNonAscii -> "nonascii" | Ok ClsPortable -> "portable"
+  | Ok (ClsNonPortable None) -> "nonportable -" | Ok (ClsNonPortable (Some p)) -> "nonportable " ^ out_str p
+  | Err _ -> "err" | Crash c -> "crash " ^ crash_name c
+let rc_of = function
+  | "ok" -> RcOk | "e2big" -> RcE2BIG | "eilseq" -> RcEILSEQ | "einval" -> RcEINVAL | "other" -> RcOther
+  | s -> failwith ("bad rc " ^ s)
+let iconv_res_s (g, r) =
+  string_of_int (int_of_nat g) ^ " " ^
+  (match r with
+   | Ok l -> "ok " ^ out_str l
+   | Err (a, b) -> "err " ^ zs a ^ " " ^ zs b
+   | Crash c -> "crash " ^ crash_name c)
+(* args from index i: open close nrows then rows: cap reset rc inleft outleft frc foutleft buf *)
+let iconv_ops_of (a : string array) (i : int) : iconv_ops =
+  let nrows = arg_int a.(i + 2) in
+  let rows = List.init nrows (fun k ->
+    let b = i + 3 + 8 * k in
+    (ZA.of_string a.(b), (arg_bool a.(b + 1), rc_of a.(b + 2), arg_z a.(b + 3), arg_z a.(b + 4), rc_of a.(b + 5), arg_z a.(b + 6), arg_str a.(b + 7)))) in
+  let find cap = List.assoc_opt (zarith_of_z cap) (List.map (fun (c, r) -> (c, r)) rows) in
+  { io_open_ok = arg_bool a.(i); io_close_ok = arg_bool a.(i + 1);
+    io_reset_ok = (fun cap -> match find cap with Some (r, _, _, _, _, _, _) -> r | None -> false);
+    io_conv = (fun cap -> match find cap with
+      | Some (_, rc, il, ol, _, _, _) -> { cr_rc = rc; cr_inleft = il; cr_outleft = ol }
+      | None -> { cr_rc = RcOther; cr_inleft = Z0; cr_outleft = Z0 });
+    io_flush = (fun cap -> match find cap with
+      | Some (_, _, _, _, frc, fol, _) -> { fr_rc = frc; fr_outleft = fol }
+      | None -> { fr_rc = RcOther; fr_outleft = Z0 });
+    io_buf = (fun cap -> match find cap with Some (_, _, _, _, _, _, b) -> b | None -> []) }
+
 (* ---------- dispatch ---------- *)
 let handle (op : string) (a : string array) : string =
   match op with
@@ -468,6 +516,50 @@ let handle (op : string) (a : string array) : string =
     let r1 = mo_run_s (fun _ -> true) enc0 f in
     let r0 = mo_run_s (fun _ -> false) enc0 f in
     if r1 = r0 then r1 else r1 ^ " @@ " ^ r0
+  | "cmdec" -> cm_res_s (cm_decode (arg_str a.(0)) (arg_str a.(1)))
+  | "cmenc" -> cm_res_s (cm_encode (arg_str a.(0)) (arg_str a.(1)))
+  | "cmmode" -> (match cm_build (arg_str a.(0)) with None -> "none" | Some CmTrie -> "trie" | Some CmDict -> "dict")
+  | "cmfile" -> (* D|E file data : the generated table of a charmap file *)
+    (match charmap_table (arg_str a.(1)) with
+     | None -> "nofile"
+     | Some t -> cm_res_s ((if a.(0) = "D" then cm_decode else cm_encode) t (arg_str a.(2))))
+  | "isportable" -> (* python name lower *)
+    let name = arg_str a.(1) in
+    let o = one_name_oracle name (arg_str a.(2)) name None AscLookupError in
+    if is_portable_encoding real_enc_data o (arg_bool a.(0)) name then "1" else "0"
+  | "classify" -> (* name lower upper lookup asc *)
+    let name = arg_str a.(0) in
+    let o = one_name_oracle name (arg_str a.(1)) (arg_str a.(2)) (opt_str_arg a.(3)) (asc_of a.(4)) in
+    let ac mo = match is_ascii_compatible_encoding o mo name with
+      | Ok true -> "1" | Ok false -> "0" | Err _ -> "E" | Crash c -> "crash " ^ crash_name c in
+    let pr = match propose_portable_encoding real_enc_data o name with
+      | Ok None -> "-" | Ok (Some p) -> out_str p | Err _ -> "err" | Crash c -> "crash " ^ crash_name c in
+    cls_s (classify real_enc_data o name) ^ " | ascii " ^ ac true ^ " " ^ ac false
+      ^ " | portable " ^ (if is_portable_encoding real_enc_data o true name then "1" else "0")
+      ^ " " ^ (if is_portable_encoding real_enc_data o false name then "1" else "0") ^ " | propose " ^ pr
+  | "classify_t" -> (* name : the same, with the generated oracle table *)
+    cls_s (classify real_enc_data real_oracle (arg_str a.(0)))
+  | "search" ->
+    (match codec_search real_enc_data (arg_str a.(0)) with
+     | SNone -> "none" | SCharmap f -> "charmap " ^ out_str f | SIconv n -> "iconv " ^ out_str n)
+  | "unrep" -> (* cli k (str res)*k joined-res ; res: 0 ok 1 UnicodeEncodeError 2 other *)
+    let k = arg_int a.(1) in
+    let chars = List.init k (fun i -> arg_str a.(2 + 2 * i)) in
+    let res_of = function "0" -> Ok () | "1" -> Err () | _ -> Crash CUnicodeError in
+    let tbl = List.init k (fun i -> (arg_str a.(2 + 2 * i), res_of a.(3 + 2 * i))) in
+    let joined = List.concat chars in
+    let jr = res_of a.(2 + 2 * k) in
+    let enc s = match List.find_opt (fun (c, _) -> list_eqb c s) tbl with
+      | Some (_, r) -> r
+      | None -> if list_eqb s joined then jr else Crash CKeyError in
+    (match get_unrepresentable_characters enc (arg_bool a.(0)) chars with
+     | Ok l -> "ok " ^ String.concat "|" (List.map out_str l) ^ " tag " ^
+               (match unrepresentable_tag_args l with None -> "-" | Some t -> String.concat "|" (List.map out_str t))
+     | Err _ -> "err" | Crash c -> "crash " ^ crash_name c)
+  | "iconvdec" -> (* fuel strict input open close nrows rows *)
+    iconv_res_s (iconv_decode (iconv_ops_of a 3) (arg_bool a.(1)) (arg_str a.(2)) (nat_of_int (arg_int a.(0))))
+  | "iconvenc" ->
+    iconv_res_s (iconv_encode (iconv_ops_of a 3) (arg_bool a.(1)) (arg_str a.(2)) (nat_of_int (arg_int a.(0))))
   | _ -> "unknown-op " ^ op
 
 let () =
